@@ -12,17 +12,24 @@ from .seam import Channel
 WATCHDOG_S = 30.0
 
 
+_incarnations = [0]
+
+
 class Proc:
     def __init__(self, proc_id, job, gate_root, seed_hex):
         self.id = proc_id
         self.job = job
+        # every simulated process of a run is a new incarnation: its pid and its random stream (uuid4, temporary
+        # names) differ from those of every earlier process, as they would on a real machine - deterministically
+        _incarnations[0] += 1
+        inc = _incarnations[0]
         p2c_r, p2c_w = os.pipe()
         c2p_r, c2p_w = os.pipe()
         pid = os.fork()
         if pid == 0:
             os.close(p2c_w)
             os.close(c2p_r)
-            child_main(p2c_r, c2p_w, proc_id, job, gate_root, seed_hex)
+            child_main(p2c_r, c2p_w, proc_id, job, gate_root, seed_hex, inc)
         os.close(p2c_r)
         os.close(c2p_w)
         self.pid = pid
